@@ -53,6 +53,7 @@ package core
 
 //@ func CRespCodec.Default
 //@   props C02 C08 C12
+//@   modifies buf.r, mapof(resp.Body), fragId
 //@   requires c != nil && resp != nil && resp.Body != nil && buf != nil && codec.bwf(buf) && n >= 0
 //@   ensures[wf] codec.bwf(buf) && buf.buf == old(buf.buf) && buf.r >= old(buf.r)
 //@   ensures[args] result == nil ==> args_ok(buf.buf, n, old(buf.r)) && buf.r == args_end(buf.buf, n, old(buf.r))
@@ -63,6 +64,7 @@ package core
 //@   ensures[frag.key@C02] result == nil ==> resp.Body[keyslot(fragkey(buf, n))].Key == fragkey(buf, n)
 //@   ensures[frag.req@C02] result == nil ==> bytes_eq(resp.Body[keyslot(fragkey(buf, n))].Req, buf.buf[0:buf.r])
 //@   loop 0
+//@     modifies buf.r
 //@     invariant 0 <= i && i <= n && argsinv(buf, n, i)
 //@     invariant i == 0 ==> key == "" && slot == 0
 //@     invariant i >= 1 ==> key == str(bulk_data(buf.buf, old(buf.r))) && slot == keyslot(key)
@@ -72,6 +74,7 @@ package core
 
 //@ func CRespCodec.Eval
 //@   props C02 C08 C12
+//@   modifies buf.r, mapof(resp.Body), fragId, resp.Type
 //@   requires c != nil && resp != nil && resp.Body != nil && buf != nil && codec.bwf(buf) && n >= 0
 //@   ensures[wf] codec.bwf(buf) && buf.buf == old(buf.buf) && buf.r >= old(buf.r)
 //@   ensures[args] result == nil ==> args_ok(buf.buf, n, old(buf.r)) && buf.r == args_end(buf.buf, n, old(buf.r))
@@ -84,74 +87,84 @@ package core
 //@   ensures[frag.key@C02] result == nil ==> resp.Body[keyslot(evalkey(buf, n))].Key == evalkey(buf, n)
 //@   ensures[frag.req@C02] result == nil ==> bytes_eq(resp.Body[keyslot(evalkey(buf, n))].Req, buf.buf[0:buf.r])
 //@   loop 0
+//@     modifies buf.r
 //@     invariant 0 <= i && i <= n && argsinv(buf, n, i)
 //@     invariant i <= 2 ==> key == "" && slot == 0
 //@     invariant i >= 3 ==> key == str(bulk_data(buf.buf, args_end(buf.buf, 2, old(buf.r)))) && slot == keyslot(key)
-//@     invariant resp.Type == ite(n < 3, codec.ReqWrongArgumentsNumber, old(resp.Type))
 //@     decreases n - i
 
 //@ func CRespCodec.Frag1
 //@   props C08 C12
 //@   flags allocbound
+//@   modifies buf.r, resp.Frags, resp.Keys, capmem(resp.Keys)
 //@   requires c != nil && resp != nil && buf != nil && codec.bwf(buf) && n >= 0
 //@   ensures[wf] codec.bwf(buf) && buf.buf == old(buf.buf) && buf.r >= old(buf.r)
 //@   ensures[args] result == nil ==> args_ok(buf.buf, n, old(buf.r)) && buf.r == args_end(buf.buf, n, old(buf.r))
 //@   ensures[taxonomy] (result != nil && result != codec.ErrInvalidResp) ==> (result == codec.EmptyLine || result == codec.ShortLine || result == codec.ErrLFNotFound)
-//@   ensures[frame] resp.Body == old(resp.Body) && resp.Type == old(resp.Type) && resp.Owner == old(resp.Owner)
 //@   ensures[groups] forall s int32 :: has(resp.Frags, s) ==> len(resp.Frags[s]) >= 1
 //@   loop 0
-//@     invariant 0 <= i && i <= n && argsinv(buf, n, i) && resp.Frags != nil
-//@     invariant forall s int32 :: has(resp.Frags, s) ==> len(resp.Frags[s]) >= 1
-//@     invariant resp.Body == old(resp.Body) && resp.Type == old(resp.Type) && resp.Owner == old(resp.Owner)
+//@     modifies buf.r, resp.Keys, capmem(resp.Keys), mapof(resp.Frags)
+//@     invariant 0 <= i && i <= n && argsinv(buf, n, i) && resp.Frags != nil && fresh(resp.Frags) && sameback(resp.Keys)
+//@     invariant forall s int32 :: has(resp.Frags, s) ==> len(resp.Frags[s]) >= 1 && newinloop(resp.Frags[s])
 //@     decreases n - i
 
 //@ func CRespCodec.Frag2
 //@   props C08 C12
 //@   flags allocbound
+//@   modifies buf.r, resp.Frags2, resp.Keys, capmem(resp.Keys)
 //@   requires c != nil && resp != nil && buf != nil && codec.bwf(buf) && n >= 0
 //@   ensures[wf] codec.bwf(buf) && buf.buf == old(buf.buf) && buf.r >= old(buf.r)
 //@   ensures[args] (result == nil && n % 2 == 0) ==> args_ok(buf.buf, n, old(buf.r)) && buf.r == args_end(buf.buf, n, old(buf.r))
 //@   ensures[taxonomy] (result != nil && result != codec.ErrInvalidResp) ==> (result == codec.EmptyLine || result == codec.ShortLine || result == codec.ErrLFNotFound)
-//@   ensures[frame] resp.Body == old(resp.Body) && resp.Type == old(resp.Type) && resp.Owner == old(resp.Owner)
 //@   ensures[groups] forall s int32 :: has(resp.Frags2, s) ==> len(resp.Frags2[s]) >= 1
 //@   loop 0
-//@     invariant forall s int32 :: has(resp.Frags2, s) ==> len(resp.Frags2[s]) >= 1
-//@     invariant 0 <= i && i % 2 == 0 && (n % 2 == 0 ==> i <= n) && argsinv(buf, n, i) && resp.Frags2 != nil
+//@     modifies buf.r, resp.Keys, capmem(resp.Keys), mapof(resp.Frags2)
+//@     invariant forall s int32 :: has(resp.Frags2, s) ==> len(resp.Frags2[s]) >= 1 && newinloop(resp.Frags2[s])
+//@     invariant sameback(resp.Keys)
+//@     invariant 0 <= i && i % 2 == 0 && (n % 2 == 0 ==> i <= n) && argsinv(buf, n, i) && resp.Frags2 != nil && fresh(resp.Frags2)
 //@     invariant args_snoc(buf.buf, i + 1, old(buf.r))
-//@     invariant resp.Body == old(resp.Body) && resp.Type == old(resp.Type) && resp.Owner == old(resp.Owner)
 //@     decreases n - i
 
 //@ func CRespCodec.MGet
 //@   props C06 C12
+//@   modifies mapof(resp.Body), fragId
 //@   requires resp != nil && resp.Body != nil
 //@   requires forall s int32 :: has(resp.Frags, s) ==> len(resp.Frags[s]) >= 1
-//@   ensures[frame] resp.Type == old(resp.Type) && resp.Owner == old(resp.Owner) && resp.Body == old(resp.Body)
 //@   loop 0
+//@     modifies mapof(resp.Body), fragId
 //@     invariant true
 //@   loop 1
-//@     invariant 0 <= rangeindex + 1 && rangeindex + 1 <= len(keys)
+//@     modifies frag.Req, capmem(frag.Req)
+//@     invariant 0 <= rangeindex + 1 && rangeindex + 1 <= len(keys) && frag != nil && sameback(frag.Req)
 
 //@ func CRespCodec.Del
 //@   props C06 C12
+//@   modifies mapof(resp.Body), fragId
 //@   requires resp != nil && resp.Body != nil
 //@   requires forall s int32 :: has(resp.Frags, s) ==> len(resp.Frags[s]) >= 1
-//@   ensures[frame] resp.Type == old(resp.Type) && resp.Owner == old(resp.Owner) && resp.Body == old(resp.Body)
 //@   loop 0
+//@     modifies mapof(resp.Body), fragId
 //@     invariant true
 //@   loop 1
-//@     invariant 0 <= rangeindex + 1 && rangeindex + 1 <= len(keys)
+//@     modifies frag.Req, capmem(frag.Req)
+//@     invariant 0 <= rangeindex + 1 && rangeindex + 1 <= len(keys) && frag != nil && sameback(frag.Req)
 
 //@ func CRespCodec.MSet
 //@   props C06 C12
+//@   modifies mapof(resp.Body), fragId
 //@   requires resp != nil && resp.Body != nil
 //@   requires forall s int32 :: has(resp.Frags2, s) ==> len(resp.Frags2[s]) >= 1
-//@   ensures[frame] resp.Type == old(resp.Type) && resp.Owner == old(resp.Owner) && resp.Body == old(resp.Body)
 //@   loop 0
+//@     modifies mapof(resp.Body), fragId
 //@     invariant true
 //@   loop 1
-//@     invariant 0 <= rangeindex + 1 && rangeindex + 1 <= len(keys)
+//@     modifies frag.Req, capmem(frag.Req)
+//@     invariant 0 <= rangeindex + 1 && rangeindex + 1 <= len(keys) && frag != nil && sameback(frag.Req)
 //@   loop 2
-//@     invariant 0 <= rangeindex#1 + 1 && rangeindex#1 + 1 <= 2
+//@     modifies frag.Req, capmem(frag.Req)
+//@     invariant 0 <= rangeindex#1 + 1 && rangeindex#1 + 1 <= 2 && frag != nil && sameback(frag.Req)
+
+//@ define sameback(x) = (x.base == pre(x.base) && x.off == pre(x.off) && cap(x) == pre(cap(x))) || newinloop(x)
 
 //@ define reqhdr_ok(bs) = len(bs) >= 1 && bidx(bs, '\n') >= 2 && bs[bidx(bs, '\n') - 1] == '\r' && bs[0] == '*'
 //@     && canon(bs[1 : bidx(bs, '\n') - 1]) && dec(bs[1 : bidx(bs, '\n') - 1], bidx(bs, '\n') - 2) >= 1
@@ -164,7 +177,11 @@ package core
 //@   requires c != nil && EngineGlobal != nil
 //@   ensures[nonnil@C12] (result1 == nil) == (result0 != nil)
 //@   ensures[taxonomy@C12] (result1 != nil && result1 != codec.ErrInvalidResp) ==> (result1 == errors.ErrIncompletePacket || result1 == codec.EmptyLine || result1 == codec.ShortLine || result1 == codec.ErrLFNotFound)
-//@   ensures[frame@C08] result1 == nil ==> reqhdr_ok(codec.buffer.buf) && args_ok(codec.buffer.buf, reqargc(codec.buffer.buf), reqargs(codec.buffer.buf))
-//@       && codec.buffer.r == args_end(codec.buffer.buf, reqargc(codec.buffer.buf), reqargs(codec.buffer.buf))
+//@   ensures[frame.hdr@C08,C12] result1 == nil ==> reqhdr_ok(codec.buffer.buf)
+//@   ensures[frame.cmd@C08,C12] result1 == nil ==> bulk_ok(codec.buffer.buf, reqargs(codec.buffer.buf))
+//@   ensures[frame.args@C08,C12] result1 == nil ==> args_ok(codec.buffer.buf, reqargc(codec.buffer.buf), reqargs(codec.buffer.buf))
+//@       && args_unfold(codec.buffer.buf, reqargc(codec.buffer.buf), reqargs(codec.buffer.buf))
+//@   ensures[frame.end@C08,C12] result1 == nil ==> codec.buffer.r == args_end(codec.buffer.buf, reqargc(codec.buffer.buf), reqargs(codec.buffer.buf))
+//@       && args_unfold(codec.buffer.buf, reqargc(codec.buffer.buf), reqargs(codec.buffer.buf))
 //@   ensures[toolarge@C17] result1 == nil ==> (result0.Type == codec.ReqTooLarge) == (codec.buffer.r > rc.MsgMaxLength)
 //@   ensures[owner] result1 == nil ==> result0.Owner == c && result0.Body != nil
